@@ -865,11 +865,26 @@ def fixupLoopT (size : U32) : Nat → U32 → Option U32
   | 0, x => if x ≥ size then none else some x
   | fuel + 1, x => if x ≥ size then fixupLoopT size fuel (x - size) else some x
 
-/-- `size_t write(const T *buf, size_t sz) { return ring_write(&r, buffer.data(), buf, sz); }`
-(and `read` alike): `sz` is converted to the `unsigned int size` parameter of
-`ring_write` — only `sz mod 2^32` elements are offered to the ring. -/
-def TRing.writeC {α : Type} (t : TRing α) (d : List α) : Option (TRing α × Nat) :=
+/-- BEFORE the round-3b repair: `size_t write(const T *buf, size_t sz) { return ring_write(&r,
+buffer.data(), buf, sz); }` (and `read` alike): `sz` is converted to the `unsigned int size`
+parameter of `ring_write` — only `sz mod 2^32` elements are offered to the ring. -/
+def TRing.writeCOrig {α : Type} (t : TRing α) (d : List α) : Option (TRing α × Nat) :=
   (ringWrite t.r t.buf (d.take (d.length % 2 ^ 32))).map fun (r', b', k) => (⟨r', b'⟩, k)
+
+/-- repaired (ab63e64, round 3b) `size_t write(const T *buf, size_t sz) { if (sz > r.size) sz = r.size;
+return ring_write(&r, buffer.data(), buf, sz); }`.  `sz` = the request (any `size_t`), `d` = the
+elements the source really holds (`|d| ≤ sz`; the loop reads `*data++` only while it runs):
+after the clamp `sz ≤ r.size < 2^32`, so the conversion to `unsigned int` changes nothing. -/
+def TRing.writeC {α : Type} (t : TRing α) (d : List α) (sz : Nat) : Option (TRing α × Nat) :=
+  (ringWrite t.r t.buf (d.take (min sz t.r.size.toNat))).map fun (r', b', k) => (⟨r', b'⟩, k)
+
+/-- repaired `size_t read(T *buf, size_t sz) { if (sz > r.size) sz = r.size; return ring_read(&r,
+buffer.data(), buf, sz); }`; before: `ring_read(…, sz mod 2^32)` -/
+def TRing.readC (t : TRing Byte) (sz : Nat) : Option (RingHead × List Byte) :=
+  ringRead t.r t.buf (min sz t.r.size.toNat)
+
+def TRing.readCOrig (t : TRing Byte) (sz : Nat) : Option (RingHead × List Byte) :=
+  ringRead t.r t.buf (sz % 2 ^ 32)
 
 /-! ## round 3b: the two ways the repaired `push` / `emplace` can still leave the
 head slot without a living object -/
